@@ -897,3 +897,12 @@ mutant("C12-M33", "C12", "R12y", "explicit interaction outcomes stored after the
 mutant("C08-M28", "C08", "R08i", "unlink empties the link lists in place (seeded C08f)", M, "Compartment.unlink", "        self.outlinks = [x.id for x in self.outlinks]", "        self._outlink_ids = [x.id for x in self.outlinks]\n        self.outlinks.clear()")
 mutant("C03-M17", "C03", "R03y", "transfer units read once per source population (seeded C03f)", M, "Model.build", "par.units = transfer_parameter.ts[pop_target].units.strip().split()[0].strip().lower()", "par.units = next(iter(transfer_parameter.ts.values())).units.strip().split()[0].strip().lower()")
 twin("C03-T8", "C03", "transfer units through a local inside the loop", M, "Model.build", "                        par.units = transfer_parameter.ts[pop_target].units.strip().split()[0].strip().lower()", "                        unit_text = transfer_parameter.ts[pop_target].units\n                        par.units = unit_text.strip().split()[0].strip().lower()")
+mutant("C17-M23", "C17", "R17h", "combination outcomes only rebuilt when the number of programs changes (seeded C17f)", PR, "Covout.update_outcomes", "        self._combination_outcomes = np.array(_combination_outcomes)", "        if getattr(self, '_combination_outcomes', None) is None or len(self._combination_outcomes) != len(_combination_outcomes):\n            self._combination_outcomes = np.array(_combination_outcomes)")
+twin("C17-T11", "C17", "0/1 combination matrix kept while the number of programs is unchanged", PR, "Covout.update_outcomes", "        self.combinations = np.array([list(int(y) for y in x) for x in combination_strings])", "        if getattr(self, 'combinations', None) is None or self.combinations.shape[1] != self.n_progs:\n            self.combinations = np.array([list(int(y) for y in x) for x in combination_strings])")
+mutant("C12-M34", "C12", "R12i", "deltas only recomputed for a new program order", PR, "Covout.update_outcomes", "        self._deltas = np.array([x[1] - self.baseline for x in prog_tuple])", "        if getattr(self, '_deltas', None) is None or len(self._deltas) != len(prog_tuple):\n            self._deltas = np.array([x[1] - self.baseline for x in prog_tuple])")
+mutant("C19-M32", "C19", "R19i", "model building strips t and dt from the reported dependency list in place (seeded C19f, consumer half)", M, "Parameter.set_fcn", "            for dep_name in dep_list:", "            for special in ('t', 'dt'):\n                while special in dep_list:\n                    dep_list.remove(special)\n            for dep_name in dep_list:")
+mutant("C16-M39", "C16", "R16n", "capacity constraint only re-based when it is being reconciled (seeded C16f)", "atomica/reconciliation.py", "_convert_to_single_year", "if prog.capacity_constraint.has_data:", "if prog.capacity_constraint.has_data and len(reconciliation_year) > 1:")
+mutant("C16-M40", "C16", "R16n", "saturation not re-based (defect #26 restored)", "atomica/reconciliation.py", "_convert_to_single_year", "        if prog.saturation.has_data:\n            prog.saturation.vals = prog.saturation.interpolate(reconciliation_year, method=\"previous\")\n            prog.saturation.t = reconciliation_year.copy()\n            prog.saturation.assumption = None\n", "")
+mutant("C18-M33", "C18", "R18f", "transition matrix labels only checked for the rows (seeded C18f)", FW, "ProjectFramework._process_transitions", "for comp in set(list(df.index) + list(df.columns)):", "for comp in df.index:")
+twin("C18-T7", "C18", "transition matrix labels collected with a union", FW, "ProjectFramework._process_transitions", "for comp in set(list(df.index) + list(df.columns)):", "for comp in sorted(set(df.index).union(df.columns)):")
+mutant("C20-M26", "C20", "R20c", "ratio accessor writes a placeholder into its denominator's stored series (seeded C20f)", M, "Characteristic.vals", "                vals[denom > 0] /= denom[denom > 0]", "                denom[denom <= 0] = 1.0\n                vals[denom > 0] /= denom[denom > 0]")
